@@ -507,6 +507,19 @@ pub fn gen(tier: &str, seed: u64, out: &mut Out) {
         ops.push(json!({"op": "norm_units", "p": 2, "frob": 1})); ops.push(json!({"op": "norm_max"}));
         push(out, json!({"ty": "f64", "init": init, "ops": ops}));
     } }
+    // (f2) LARGE exponents of the entrywise p-norm on matrices whose entries are 0 / +-1 (several entries tie for the maximum):
+    //      every |a|^p is exact for every p, so the definition gives (number of non-zeros)^(1/p) without any overflow;
+    //      a shortcut "p large => max norm" is wrong by ln(k)/p here (2e-9 at p = 1e9 against a guard of a few hundred eps)
+    for r in 1..=8usize { for c in 1..=8usize {
+        if quick && (r + 2 * c) % 3 != 0 && r != c { continue; }
+        let init = rand_mat_json(&mut rng, r, c, -1, 1);
+        let mut ops: Vec<Value> = vec![];
+        for p in [7i64, 64, 1000, 1_000_000, 100_000_000, 1_000_000_000] { ops.push(json!({"op": "norm_units", "p": p, "frob": 0})); }
+        ops.push(json!({"op": "fill", "x": -1}));
+        for p in [33i64, 99_999_999, 100_000_001, 2_000_000_000] { ops.push(json!({"op": "norm_units", "p": p, "frob": 0})); }
+        ops.push(json!({"op": "norm_max"}));
+        push(out, json!({"ty": "f64", "init": init, "ops": ops}));
+    } }
     // (g) every norm and every read-only view after every shape-changing operation (stale storage left behind by
     //     delete_row / resize / clear / transpose must never be counted)
     for r in 1..=8usize { for c in 1..=8usize {
